@@ -24,8 +24,7 @@ Proof.
   rewrite Hk.
   destruct (extract_rule fact false) as [rule|e|w|] eqn:Er; cbn [fst]; auto.
   destruct (add_hook_err s fact) as [e|] eqn:Eh.
-  - cbn [fst]. destruct rule as [r|]; auto. destruct (is_scheduled r); auto.
-    destruct (st_add_mem_idx s id fact) as [s' e']. cbn [st_facts set_facts]. auto.
+  - cbn [fst]. auto.
   - destruct (st_add_mem_idx s id fact) as [s1 [e|]] eqn:E.
     + apply st_add_mem_idx_spec in E. destruct E as (s2 & He & ->). cbn [fst].
       destruct He as (_ & -> & _). auto.
